@@ -1269,3 +1269,6 @@ def into_via_from(eng, c, a, g):
 MODELS_NORM = MODELS_NORM + [(re.compile(r'<.+ as Into<.+>>::into'), into_via_from)]
 
 MODELS_NORM = [(re.compile(r'BTreeSet::<&?Url>::insert'), set_insert)] + MODELS_NORM      # membership-bit set over the url universe (iteration order is not used through this model)
+
+# ------------------------------------------------------------------ calling a value of a generic `impl FnOnce(..)` parameter: the value is a closure (or fn item) at run time
+MODELS_NORM = [(re.compile(r"<impl Fn(Mut|Once)?\(.*\).* as Fn(Mut|Once)?<.*>>::call(_mut|_once)?"), closure_call)] + MODELS_NORM
